@@ -886,6 +886,11 @@ func Rebuild(t *Term, args []*Term) *Term {
 	case "extract":
 		k, _ := strconv.Atoi(t.Name)
 		return Extract(args[0], k, t.T)
+	case "call":
+		n := *t
+		n.Args = args
+		n.key = ""
+		return FoldCall(&n)
 	}
 	n := *t
 	n.Args = args
@@ -1117,3 +1122,48 @@ func casesRec(t *Term, max int) []TermCase {
 // WithKey returns a placeholder term whose key is exactly key; it is only
 // meaningful as the "from" argument of Subst.
 func WithKey(key string) *Term { return &Term{Op: "key", key: key} }
+
+// FoldCall simplifies calls of a few pure standard-library functions on
+// constant arguments.
+func FoldCall(t *Term) *Term {
+	if t.Op != "call" || len(t.Args) != 1 || !t.Args[0].IsConst() || t.Args[0].C == nil {
+		return t
+	}
+	c := t.Args[0].C
+	switch t.Name {
+	case "math.Float32frombits":
+		if v, ok := constant.Uint64Val(c); ok {
+			switch v {
+			case 0x7f800000:
+				return Atom("+Inf", t.T)
+			case 0xff800000:
+				return Atom("-Inf", t.T)
+			case 0:
+				return Const(constant.ToFloat(constant.MakeInt64(0)), t.T)
+			}
+		}
+	case "math.Abs":
+		if constant.Sign(c) < 0 {
+			return Const(constant.UnaryOp(token.SUB, c, 0), t.T)
+		}
+		return Const(c, t.T)
+	case "math.Floor", "math.Ceil":
+		f := constant.ToFloat(c)
+		if f.Kind() != constant.Float {
+			return t
+		}
+		num, den := constant.Num(f), constant.Denom(f)
+		q := constant.BinaryOp(num, token.QUO_ASSIGN, den) // truncates toward zero
+		exact := constant.Compare(constant.BinaryOp(q, token.MUL, den), token.EQL, num)
+		if !exact {
+			if t.Name == "math.Floor" && constant.Sign(f) < 0 {
+				q = constant.BinaryOp(q, token.SUB, constant.MakeInt64(1))
+			}
+			if t.Name == "math.Ceil" && constant.Sign(f) > 0 {
+				q = constant.BinaryOp(q, token.ADD, constant.MakeInt64(1))
+			}
+		}
+		return Const(constant.ToFloat(q), t.T)
+	}
+	return t
+}
